@@ -29,7 +29,7 @@ RULE = (
     "clip/cli: Hypothesis draws source documents of two families. 'placed' (3 of 4): viewBox with arbitrary origin "
     "(negative, positive, fractional) and size, or width/height only; 1-8 leaves, each fitted into a target box that "
     "is chosen per axis relative to the viewBox border (inside / entirely beyond / straddling the low or high border "
-    "/ spanning both / touching the border exactly from outside or inside / flush), so all sides and corners occur; "
+    "/ spanning both / touching the border exactly from outside or inside / flush / sticking out by a hair: 0.02-0.09% of the side), so all sides and corners occur; "
     "17 shape kinds (rect, rounded rect, ellipse, circle, right triangle whose empty half may be the only part of "
     "its box that reaches the viewBox, random polygon, pentagram, ring with same/opposite inner direction, "
     "quadratic lens whose control point sticks out of the curve's box, 4-quad blob, cubic arch, arc shapes, random "
@@ -45,7 +45,7 @@ RULE = (
     "paint stack and the composited colour must agree; at points outside by > epsilon nothing may be painted; the "
     "number of path elements left must not exceed the number of original paths minus those whose region is farther "
     "than epsilon from the viewBox rectangle (own segment/rectangle test: such shapes must disappear, also when only "
-    "their bounding box reaches in); the result must satisfy the picosvg grammar (defs first, only g/path, g with "
+    "their bounding box reaches in); no remaining path may reach beyond the viewBox rectangle by more than 2e-3 + 2e-6 x magnitude (exact test on own curve extrema, float32 engine slack); the result must satisfy the picosvg grammar (defs first, only g/path, g with "
     ">= 2 children and only an opacity strictly between 0 and 1, plain nonzero path fills). A render mismatch that "
     "disappears when the picosvg's curves are flattened to polygons before clipping is attributed to skia-pathops "
     "(ENGINE). Also on every picosvg: shape and document bounding boxes against own analytic bounds. Non-trivial = "
